@@ -1809,6 +1809,39 @@ impl Instance {
             let (d, h) = Self::diff(&exp, &rev);
             return Err(self.scan_mismatch(sel, "reverse", d, &h));
         }
+        // the other ways of consuming a scan item (key / size / value / conditional access) must agree with into_inner
+        if unknown.is_empty() && self.obs.chance(1, 3) {
+            let rot = self.obs.below(5) as usize;
+            let back = self.obs.chance(1, 3);
+            let it: Box<dyn Iterator<Item = lsm_tree::IterGuardImpl>> = if back { Box::new(t.iter(s, None).rev()) } else { Box::new(t.iter(s, None)) };
+            let mut n = 0usize;
+            for (i, g) in it.enumerate() {
+                n += 1;
+                let Some((ek, ev)) = (if back { exp.len().checked_sub(i + 1).and_then(|j| exp.get(j)) } else { exp.get(i) }) else {
+                    return Err(self.scan_mismatch(sel, "guard-api", format!("scan yields more than the {} expected items", exp.len()), b""));
+                };
+                let bad = |what: &str, got: String| format!("item {i} ({:?}) consumed through {what}: got {got}, expected key {:?} value of {} bytes", esc(ek), esc(ek), ev.len());
+                let r: Result<(), String> = match (i + rot) % 5 {
+                    0 => g.key().map_err(|e| format!("{e:?}")).and_then(|k| if k.as_ref() == ek.as_slice() { Ok(()) } else { Err(bad("key()", format!("{:?}", esc(&k)))) }),
+                    1 => g.size().map_err(|e| format!("{e:?}")).and_then(|z| if z as usize == ev.len() { Ok(()) } else { Err(bad("size()", format!("{z}"))) }),
+                    2 => g.value().map_err(|e| format!("{e:?}")).and_then(|v| if v.as_ref() == ev.as_slice() { Ok(()) } else { Err(bad("value()", format!("{:?}", esc(&v[..v.len().min(16)])))) }),
+                    3 => g.into_inner_if(|_| true).map_err(|e| format!("{e:?}")).and_then(|(k, v)| {
+                        if k.as_ref() == ek.as_slice() && v.as_ref().map(|v| v.as_ref() == ev.as_slice()) == Some(true) { Ok(()) } else { Err(bad("into_inner_if(true)", format!("{:?}/{:?}", esc(&k), v.map(|v| v.len())))) }
+                    }),
+                    _ => g.into_inner_if(|_| false).map_err(|e| format!("{e:?}")).and_then(|(k, v)| {
+                        if k.as_ref() == ek.as_slice() && v.is_none() { Ok(()) } else { Err(bad("into_inner_if(false)", format!("{:?}/{:?}", esc(&k), v.map(|v| v.len())))) }
+                    }),
+                };
+                if let Err(d) = r {
+                    return Err(self.scan_mismatch(sel, "guard-api", d, ek));
+                }
+            }
+            if n != exp.len() {
+                return Err(self.scan_mismatch(sel, "guard-api", format!("scan yields {n} items, expected {}", exp.len()), b""));
+            }
+            bump(&mut self.counters, "scan_comparisons", 1);
+            bump(&mut self.counters, "guard_api_scans", 1);
+        }
         // len / is_empty / first / last
         let len = t.len(s, None).map_err(|e| self.scan_mismatch(sel, "len-error", format!("{e:?}"), b""))?;
         let lo = exp.len();
